@@ -33,12 +33,28 @@ Further input classes (each judged by the same three verdicts):
     both hemispheres); timelines start every few weeks over a whole year so that validities / overlaps / intervals straddle
     every switch, with min == max bounds hit exactly, one-hour and one-second deviations, and the horizon bounds.  The parsed
     instants must be the instants the text denotes in UTC, and the verdict must be the documented region's — in every zone.
+  * SPELLINGS of the declared durations (`spellings`, `dur_cases`): the bounds "the KSR declares" reach the rules as ISO 8601 TEXT
+    (Max/MinSignatureValidity, Max/MinValidityOverlap of <RequestPolicy><ZSK>) through request_from_xml / load_ksr.  The same number
+    of seconds X is written in every way the documented grammar (weeks, days | T hours, minutes, seconds) has: seconds only, minutes /
+    hours / days / weeks only (where X is a whole number of them), every mix over every one of the 31 subsets of W / D / H / M / S (as
+    many of each unit as fit, the last unit the rest), not normalised (P1W8D, PT359H60M), first unit zero (P0W15D), zero components
+    (P2W1DT0S: `T` section present although empty of value / absent), leading zeros (P02W01D) -- and, as class `other-order`, the
+    same components in an order / `T` placement the grammar does not have (P1D2W, PT12H1W, P2W24H: a loader may refuse them cleanly
+    -- a control -- but if it reads them then as X).  X ranges over 2W1D, 1W1D, 1W3D, 1WT12H, 1W1DT1H1M1S, 3W, 1DT1H1M1S, PT36H and
+    random week/day/hour/minute/second sums.  Each text is the declared max or min of the validity or of the overlap rule (rotating),
+    with lower bound = upper bound = X (companion bound in the same text / in another spelling of X) and in a one-day window, the
+    decisive quantity exactly X (inside) and one second beyond (outside); the other declared durations of the document rotate through
+    grammar spellings of their own values.  Judged: (i) the durations the loader read == X by OWN integer arithmetic (W = 604800,
+    D = 86400, H = 3600, M = 60; DURATION_GRAMMAR is an independent reading of each text), (ii) the verdict == region() on the exact
+    integers, (iii) the model on the same integers.  Texts outside the grammar (a month `M` before `T`, a `T` that nothing
+    follows) are counted controls.
 """
 
 from __future__ import annotations
 
 import itertools
 import os
+import re
 import tempfile
 import time
 from datetime import datetime, timezone
@@ -53,6 +69,8 @@ ASSUMPTIONS = [
     "non-timing rules are switched off or trivially satisfied in this run (they are C06/C07's subject)",
     "the operator's horizon is a positive number of days (H >= 1: what a loaded configuration can hold; C05_iff carries the same hypothesis)",
     "the process time zone can be switched with TZ + time.tzset() (POSIX); the run stops if a switch shows no effect",
+    "declared durations: the documented grammar is P[nW][nD][T[nH][nM][nS]] (ISO 8601 week / day / hour / minute / second components, a week = 7 days of "
+    "86400 s; `M` is minutes, only after `T`); a text with the components in another order or with a month may be refused cleanly (counted control)",
 ]
 TRUSTED: list[str] = []
 
@@ -428,8 +446,11 @@ def fmt_duration(us: int) -> str:
 _TZ_KEY: dict[str, str] = {}
 
 
-def ksr_xml(timeline: list[tuple[int, int]], zp: dict[str, int], style: str) -> str:
-    """A KSR document in the layout of the archived requests; one (real) 1024-bit ZSK, a placeholder signature."""
+def ksr_xml(timeline: list[tuple[int, int]], zp: dict[str, int], style: str, durations: dict[str, str] | None = None) -> str:
+    """A KSR document in the layout of the archived requests; one (real) 1024-bit ZSK, a placeholder signature.  `durations` (optional):
+    the TEXT to write for a declared duration (max_validity / min_validity / max_overlap / min_overlap) instead of the P<d>D[T<s>S] default."""
+    durations = durations or {}
+    dur = lambda f: durations.get(f) or fmt_duration(zp[f])  # noqa: E731
     if not _TZ_KEY:
         import keys as fx
 
@@ -439,10 +460,10 @@ def ksr_xml(timeline: list[tuple[int, int]], zp: dict[str, int], style: str) -> 
     lines = [
         '<KSR domain="." id="tz-req" serial="1">', "  <Request>", "    <RequestPolicy>", "      <ZSK>",
         "        <PublishSafety>P10D</PublishSafety>", "        <RetireSafety>P10D</RetireSafety>",
-        f"        <MaxSignatureValidity>{fmt_duration(zp['max_validity'])}</MaxSignatureValidity>",
-        f"        <MinSignatureValidity>{fmt_duration(zp['min_validity'])}</MinSignatureValidity>",
-        f"        <MaxValidityOverlap>{fmt_duration(zp['max_overlap'])}</MaxValidityOverlap>",
-        f"        <MinValidityOverlap>{fmt_duration(zp['min_overlap'])}</MinValidityOverlap>",
+        f"        <MaxSignatureValidity>{dur('max_validity')}</MaxSignatureValidity>",
+        f"        <MinSignatureValidity>{dur('min_validity')}</MinSignatureValidity>",
+        f"        <MaxValidityOverlap>{dur('max_overlap')}</MaxValidityOverlap>",
+        f"        <MinValidityOverlap>{dur('min_overlap')}</MinValidityOverlap>",
         '        <SignatureAlgorithm algorithm="8">', '          <RSA exponent="65537" size="2048"/>', "        </SignatureAlgorithm>",
         "      </ZSK>", "    </RequestPolicy>",
     ]
@@ -544,17 +565,186 @@ def tz_cases(r: Any, tier: str) -> list[tuple[str, list[tuple[int, int]], dict[s
     return out
 
 
+# ---- spellings of the declared durations (ISO 8601 text) ----------------------------------------------------------------
+
+UNIT_SECONDS = {"W": 604800, "D": 86400, "H": 3600, "M": 60, "S": 1}  # own arithmetic: a week is seven days of 24 hours of 60 minutes of 60 seconds
+UNIT_ORDER = "WDHMS"
+# the documented grammar ("ISO 8601 week / day / hour / minute / second durations"): P, then weeks and days in this order, then -- after a
+# `T` that is written if and only if a time component follows -- hours, minutes, seconds in this order; every component optional, at
+# least one present; a component is ASCII digits (leading zeros allowed) and its designator.  `M` stands for minutes only (after `T`).
+DURATION_GRAMMAR = re.compile(r"^P(?=\d|T\d)(?:(\d+)W)?(?:(\d+)D)?(?:T(?=\d)(?:(\d+)H)?(?:(\d+)M)?(?:(\d+)S)?)?$")
+DUR_FIELDS = ["max_validity", "min_validity", "max_overlap", "min_overlap"]
+
+
+def grammar_seconds(text: str) -> int | None:
+    """the number of seconds a text of the documented grammar denotes (None: the text is not of the grammar)"""
+    m = DURATION_GRAMMAR.match(text)
+    if not m:
+        return None
+    return sum(int(g) * UNIT_SECONDS[u] for g, u in zip(m.groups(), UNIT_ORDER) if g is not None)
+
+
+def spell(parts: list[tuple[str, int]], pad: int = 0, no_t: bool = False) -> str:
+    """the components written in the given order, each with `pad` leading zeros; a `T` is written once, before the first hour / minute /
+    second component (not at all with `no_t`)"""
+    out, in_time = "P", False
+    for u, n in parts:
+        if u in "HMS" and not in_time and not no_t:
+            out += "T"
+            in_time = True
+        out += "0" * pad + str(n) + u
+    return out
+
+
+def decompose(x: int, units: str, first: int | None = None) -> list[tuple[str, int]] | None:
+    """x seconds over the units `units` (canonical order): the first unit takes `first` of its kind (default: as many as fit), every further one
+    as many as fit, the last one the rest -- None when the rest is not a whole number of the last unit"""
+    parts = []
+    rem = x
+    for i, u in enumerate(units):
+        size = UNIT_SECONDS[u]
+        n = rem // size if (i or first is None) else first
+        if i == len(units) - 1:
+            if rem % size:
+                return None
+            n = rem // size
+        if n * size > rem:
+            return None
+        parts.append((u, n))
+        rem -= n * size
+    return parts
+
+
+_SPELLINGS: dict[int, list[tuple[str, str, str]]] = {}
+
+
+def spellings(x: int) -> list[tuple[str, str, str]]:
+    """(text, class, how) -- ways of writing the duration of x >= 0 seconds as ISO 8601 text; the value every one of them denotes is x by
+    construction (sum of component * UNIT_SECONDS).  class `grammar`: a text of the documented grammar (DURATION_GRAMMAR; must be read as
+    exactly x); class `other-order`: the same components in an order / `T` placement the grammar does not have (weeks after days, a date
+    component after `T`, a time component without `T`, ...: a reader may refuse it cleanly -- control -- but if it reads it, then as x)."""
+    if x in _SPELLINGS:
+        return _SPELLINGS[x]
+    found: dict[str, tuple[str, str, str]] = {}
+
+    def add(parts: list[tuple[str, int]] | None, how: str, **kw: Any) -> None:
+        if parts is None:
+            return
+        assert sum(n * UNIT_SECONDS[u] for u, n in parts) == x
+        text = spell(parts, **kw)
+        g = grammar_seconds(text)
+        assert g in (None, x), (text, g, x)  # the grammar's own reading agrees with the construction
+        found.setdefault(text, (text, "grammar" if g is not None else "other-order", how))
+
+    subsets = ["".join(u for u, b in zip(UNIT_ORDER, bits) if b) for bits in itertools.product([0, 1], repeat=5) if any(bits)]
+    for units in subsets:
+        greedy = decompose(x, units)
+        if greedy is None:
+            continue
+        mixed = sum(1 for _, n in greedy if n) >= 2
+        name = "one-unit:" + units if len(units) == 1 else "mix:" + units
+        add(greedy, name + (":zero-component" if any(n == 0 for _, n in greedy) else ""))
+        if len(units) >= 2:
+            # not normalised: one (and: every) first unit less than fit, the smaller units carry the rest (P1W8D, P0W15D)
+            if greedy[0][1] >= 1:
+                add(decompose(x, units, greedy[0][1] - 1), name + ":not-normalised")
+            add(decompose(x, units, 0), name + ":first-unit-zero")
+        if mixed and len(units) in (2, 3, 5):
+            add(greedy, name + ":leading-zeros", pad=1 + len(units) % 2)
+            # orders the grammar does not have
+            add(greedy[::-1], name + ":reversed-order")
+            add(greedy[1:] + greedy[:1], name + ":rotated-order")
+            if "M" not in units and any(u in "HS" for u in units):
+                add(greedy, name + ":time-component-without-T", no_t=True)
+    _SPELLINGS[x] = sorted(found.values())
+    return _SPELLINGS[x]
+
+
+# texts OUTSIDE the grammar that a loader should refuse: `M` before `T` is a month (no fixed length), a `T` that nothing follows.  Controls: counted
+# when refused cleanly; nothing is demanded of a loader that reads them.
+OUTSIDE_GRAMMAR = ["P1M", "P1M1D", "P2W1M", "P1MT1M", "P15DT", "P2WT"]
+
+
+def dur_cases(r: Any, tier: str) -> list[dict[str, Any]]:
+    """Cases of the duration-SPELLING stream (XML text path): three-bundle timelines whose decisive quantity -- validity or overlap -- is X, X - 1 s,
+    X + 1 s against a declared bound X that the document states in every spelling of `spellings(X)`; the field rotates over Max/MinSignatureValidity
+    and Max/MinValidityOverlap.  Shapes: `eq` lower bound = upper bound = X (the other bound in the same or in another spelling of X), `window` the
+    other bound one day away; quantity on the bound (inside) and one second beyond it (outside).  The three durations that are not decisive are
+    written in rotating grammar spellings of their own values.  Expected value of every text: own integer arithmetic; verdict: region()."""
+    DAY_S = 86400
+    values = [15 * DAY_S, 8 * DAY_S, 10 * DAY_S, 7 * DAY_S + 12 * 3600, 694861, 21 * DAY_S, 90061, 36 * 3600]
+    # 2W1D, 1W1D, 1W3D, 1WT12H, 1W1DT1H1M1S, 3W (weeks alone), 1DT1H1M1S and PT36H (no week: hour / minute / second mixes)
+    for _ in range(2 if tier == "quick" else 24):
+        values.append(r.randrange(0, 4) * 604800 + r.randrange(0, 7) * DAY_S + r.choice([0, 0, r.randrange(24)]) * 3600 + r.choice([0, r.randrange(60)]) * 60 + r.choice([0, r.randrange(60)]) + 2)
+    all_on = {f: True for f in TIMING_FLAGS}
+    only = lambda own: {f: (f == own) for f in TIMING_FLAGS}  # noqa: E731
+    start = 1_893_456_000 * SEC + 7 * 3600 * SEC  # 2030-01-01T07:00:00Z
+    out: list[dict[str, Any]] = []
+
+    def grammar_text(v: int, k: int) -> str:
+        g = [t for t, cls, _ in spellings(v) if cls == "grammar"]
+        return g[k % len(g)]
+
+    def emit(tag: str, x: int, field: str, text: str, cls: str, how: str, shape: str, d: int, k: int, outside: bool = False) -> None:
+        rule = "validity" if field.endswith("validity") else "overlap"
+        I = (min(5 * DAY_S, x // 2) if rule == "validity" else 10 * DAY_S) * SEC
+        V = x * SEC if rule == "validity" else x * SEC + I
+        O = V - I
+        other = {"eq": x, "window": max(0, x - DAY_S) if field.startswith("max") else x + DAY_S}[shape]
+        lo, hi = (other, x) if field.startswith("max") else (x, other)
+        zp = {"min_validity": V, "max_validity": V, "min_overlap": O, "max_overlap": O}
+        zp["min_" + rule], zp["max_" + rule] = lo * SEC, hi * SEC
+        pol = {"num_bundles": 3, "min_cycle": 2 * I, "max_cycle": 2 * I, "min_interval": I, "max_interval": I, "horizon_days": 180}
+        t = honest(3, start, I, V)
+        if d:
+            pos = k % 3
+            if rule == "validity":
+                t[pos] = (t[pos][0], t[pos][1] + d)
+            else:
+                t = [t[0]] + [(i - d, e - d) for i, e in t[1:]]  # the overlap of the first pair becomes O + d
+        # the decisive field in the spelling under test; its companion bound in the same text (eq, every other time) or in a rotating grammar
+        # spelling of its own value; the two durations of the other rule in rotating grammar spellings of theirs
+        durations = {f: grammar_text(zp[f] // SEC, k + fi) for fi, f in enumerate(DUR_FIELDS)}
+        durations[field] = text
+        companion = ("min_" if field.startswith("max") else "max_") + rule
+        if shape == "eq" and k % 2 == 0 and not outside:
+            durations[companion] = text
+        flags = all_on if (d == 0 or k % 3 == 0) else only(RULES[rule][0])
+        out.append({"tag": tag, "n": 3, "timeline": t, "zsk": zp, "policy": pol, "flags": flags, "now": start - 5 * DAY_US, "tz": "UTC", "style": STYLES[k % len(STYLES)],
+                    "via_file": k % 5 == 0, "durations": durations, "dur": {"field": field, "text": text, "seconds": x, "class": cls, "how": how, "shape": shape, "quantity_minus_bound_us": d}})
+
+    k = 0
+    for xi, x in enumerate(values):
+        for si, (text, cls, how) in enumerate(spellings(x)):
+            field = DUR_FIELDS[(xi + si) % 4]
+            beyond = SEC if field.startswith("max") else -SEC
+            for shape, d in (("eq", 0), ("eq", beyond if si % 2 else -beyond), ("window", 0), ("window", beyond)):
+                if tier == "quick" and shape == "window" and ((si + xi) % 2 or (cls == "other-order" and d == 0)):
+                    continue  # quick: the min < max window for every other spelling (lower bound = upper bound for every one)
+                k += 1
+                emit(f"dur:{cls}:{shape}:{'on-bound' if d == 0 else 'bound%+ds' % (d // SEC)}:{field}:{text}", x, field, text, cls, how, shape, d, k)
+    for oi, text in enumerate(OUTSIDE_GRAMMAR):
+        k += 1
+        emit(f"dur:outside-grammar:eq:on-bound:{DUR_FIELDS[oi % 4]}:{text}", 15 * DAY_S, DUR_FIELDS[oi % 4], text, "outside-grammar", "month-or-dangling-T", "eq", 0, k, outside=True)
+    return out
+
+
 def run_tz_case(case: dict[str, Any], via_file: bool = False) -> dict[str, Any]:
     """Render the case as XML text, load it through /repo's loader and validate it — in the process time zone that is set NOW."""
     from kskm.ksr.load import load_ksr, request_from_xml
     from kskm.ksr.validate import validate_request
 
     timeline = [tuple(x) for x in case["timeline"]]
-    xml = ksr_xml(timeline, case["zsk"], case["style"])
+    xml = ksr_xml(timeline, case["zsk"], case["style"], case.get("durations"))
     _, policy = build(timeline, case["zsk"], case["policy"], case["flags"])
     parsed: Any = None
+    declared: Any = None
     try:
-        parsed = [(lib.dt_us(b.inception), lib.dt_us(b.expiration)) for b in request_from_xml(xml).bundles]
+        loaded = request_from_xml(xml)
+        parsed = [(lib.dt_us(b.inception), lib.dt_us(b.expiration)) for b in loaded.bundles]
+        z = loaded.zsk_policy
+        declared = {"min_validity": lib.td_us(z.min_signature_validity), "max_validity": lib.td_us(z.max_signature_validity),
+                    "min_overlap": lib.td_us(z.min_validity_overlap), "max_overlap": lib.td_us(z.max_validity_overlap)}
     except Exception:  # noqa: BLE001  (the verdict below reports it)
         pass
 
@@ -570,7 +760,7 @@ def run_tz_case(case: dict[str, Any], via_file: bool = False) -> dict[str, Any]:
     with PinnedClock() as clock:
         clock.now_us = case["now"]
         impl = run_impl(go)
-    return {"impl": impl, "parsed": parsed, "xml": xml}
+    return {"impl": impl, "parsed": parsed, "declared": declared, "xml": xml}
 
 
 def run(tier: str, driver_ok: bool) -> Result:
@@ -592,7 +782,13 @@ def run(tier: str, driver_ok: bool) -> Result:
         "whole-second timelines and on timelines whose instants all carry a sub-second part, degenerate quantities at 0 +-1 us, random "
         "sub-second deviations; the same deviations (validity via expiration and via inception, interval / overlap / cycle, horizon, "
         "sub-second gap, inside a min<max window) through the XML text path with 1..6 fraction digits (quick: under UTC and one rotating "
-        "non-UTC zone); non-trivial = distinct (timeline, policy, flags, now[, zone, spelling]) input"
+        "non-UTC zone); spellings of the declared durations (XML text path): each bound X in {2W1D, 1W1D, 1W3D, 1WT12H, 1W1DT1H1M1S, 3W, "
+        "1DT1H1M1S, PT36H, random sums (quick: 2, thorough: 24)} written as seconds / minutes / hours / days / weeks only and as every mix over the 31 "
+        "subsets of W/D/H/M/S -- normalised, not normalised, first unit zero, zero components, leading zeros, T section present / absent -- plus the "
+        "same components in orders / T placements outside the grammar (control if refused, exact value if read), as declared max / min of validity / "
+        "overlap (rotating), lower = upper bound (same text / another spelling) and one-day window (quick: every other spelling), quantity on the "
+        "bound and one second beyond; loader's durations compared with own integer arithmetic, verdict with the documented region; "
+        "non-trivial = distinct (timeline, policy, flags, now[, zone, spelling]) input"
     )
     r = lib.rng("C05")
     cases: list[dict[str, Any]] = []
@@ -677,6 +873,28 @@ def run(tier: str, driver_ok: bool) -> Result:
                     if sub:
                         res.bump("xml:sub-second-case:" + tag.split(":")[2])
 
+    # spellings of the declared durations: the same number of seconds written in every mix of W / D / H / M / S (XML text path, under UTC)
+    with ProcessTZ(*TZ_ZONES[0]):
+        for case in dur_cases(r, tier):
+            timeline, zp, pol = case["timeline"], case["zsk"], case["policy"]
+            got = run_tz_case(case, via_file=case["via_file"])
+            reg = region(timeline, zp, pol, case["now"])
+            want_accept = reg["count"] and all(reg[f] for f in TIMING_FLAGS if case["flags"][f])
+            cases.append({"case": case, "impl": got["impl"], "want": want_accept, "region": reg, "parsed": got["parsed"], "declared": got["declared"]})
+            req, policy = build(timeline, zp, pol, case["flags"])
+            lines.append({"op": "validate_request", "request": request_j(req), "policy": request_policy_j(policy), "now": case["now"]})
+            d = case["dur"]
+            res.bump("dur:class:" + d["class"])
+            res.bump("dur:field:" + d["field"])
+            res.bump("dur:shape:" + d["shape"] + (":quantity-on-the-bound" if d["quantity_minus_bound_us"] == 0 else ":quantity-one-second-beyond-the-bound"))
+            how = d["how"].split(":")
+            res.bump("dur:units:" + ":".join(how[:2]))
+            for feature in how[2:]:
+                res.bump("dur:feature:" + feature)
+            res.bump("dur:T-section-" + ("present" if "T" in d["text"] else "absent"))
+            res.bump("dur:expected-" + ("accept" if want_accept else "reject"))
+            res.bump("tz:path:" + ("load_ksr" if case["via_file"] else "request_from_xml"))
+
     model = run_driver(lines) if driver_ok else [None] * len(lines)
     for c, m in zip(cases, model):
         case, impl = c["case"], c["impl"]
@@ -684,11 +902,28 @@ def run(tier: str, driver_ok: bool) -> Result:
         rule = case["tag"].split(":")[0]
         res.bump("rule:" + rule)
         res.bump("impl:" + ("accept" if "ok" in impl else next(iter(impl.values()))))
-        if len(res.samples) < 5 and rule in ("validity", "horizon", "overlap", "random", "tz"):
-            if not any(s["case"]["tag"].split(":")[0] == rule for s in res.samples):
-                res.sample({"case": case, "impl": impl, "model": m, "documented_region_accepts": c["want"]})
+        if len(res.samples) < 6 and rule in ("validity", "horizon", "overlap", "random", "tz", "dur"):
+            if not any(s["case"]["tag"].split(":")[0] == rule for s in res.samples) and not (rule == "dur" and "W" not in case["dur"]["text"]):
+                res.sample({"case": case, "impl": impl, "model": m, "documented_region_accepts": c["want"]}, limit=6)
         impl_accept = "ok" in impl
         key = rule if rule != "tz" else "tz:" + ":".join(case["tag"].split(":")[1:3] if case["tag"].split(":")[1] == "sub" else case["tag"].split(":")[1:2])
+        dur = case.get("dur")
+        if dur is not None:
+            key = f"dur:{dur['class']}:{dur['shape']}"
+            if dur["class"] != "grammar" and "error" in impl:
+                # a text the documented grammar does not have (other component order / T placement, a month, a T that nothing follows), refused cleanly: a control
+                res.bump(f"dur:control:{dur['class']}-text-refused-cleanly")
+                continue
+            if dur["class"] == "outside-grammar":
+                res.bump("dur:control:outside-grammar-text-read-by-the-loader (nothing demanded): " + dur["text"])
+                continue
+        if c.get("declared") is not None:
+            # the durations the loader read from the text against the durations the text denotes (own arithmetic: W=604800 s, D=86400 s, H=3600 s, M=60 s)
+            wrong = {f: {"text": (case.get("durations") or {}).get(f) or fmt_duration(case["zsk"][f]), "denotes_us": case["zsk"][f], "parsed_us": c["declared"][f]}
+                     for f in DUR_FIELDS if c["declared"][f] != case["zsk"][f]}
+            if wrong:
+                res.violation("loader: a duration the KSR declares (ISO 8601 text) is not read as the duration the text denotes", case,
+                              key=("dur:parsed-duration:" + dur["class"]) if dur is not None else "tz:parsed-duration", wrong=wrong)
         if "tz" in case and c["parsed"] is not None:
             denoted = sorted(case["timeline"], key=lambda b: (b[1], b[0]))
             if [tuple(x) for x in c["parsed"]] != [tuple(x) for x in denoted]:
@@ -735,6 +970,7 @@ def replay(obj: dict[str, Any]) -> Any:
             utc = run_tz_case(case, via_file=case.get("via_file", False))
         m = run_driver([{"op": "validate_request", "request": request_j(req), "policy": request_policy_j(policy), "now": now}])[0]
         return {"case": case, "xml": got["xml"], "implementation": got["impl"], "parsed_instants": got["parsed"], "denoted_instants": sorted(timeline, key=lambda b: (b[1], b[0])),
+                "parsed_durations_us": got["declared"], "denoted_durations_us": {f: case["zsk"][f] for f in DUR_FIELDS}, "duration_texts": case.get("durations"),
                 "implementation_under_UTC": utc["impl"], "parsed_instants_under_UTC": utc["parsed"], "model": m, "documented_region": region(timeline, case["zsk"], case["policy"], now)}
     with PinnedClock() as clock:
         clock.now_us = now
